@@ -291,6 +291,23 @@ def checkTrace (cnf : CNF) (n0 : Nat) (proofs : List (Nat × List Nat)) : Bool :
     | _, _ => false) &&
   cnf.getLast? == some []
 
+/-- Rebuild the learned clauses from the proofs alone (what `solve_cnf` returns): entry `(i, p)`
+must carry the next free id and cite existing clauses; its clause is the replay of `p`. -/
+def rebuild : CNF → List (Nat × List Nat) → Option CNF
+  | c, [] => some c
+  | c, (i, p) :: rest =>
+    if i == c.length then
+      match replayProof c p with
+      | some r => rebuild (c ++ [r]) rest
+      | none => none
+    else none
+
+/-- Checker for the pair `('unsatisfiable', proofs)` against the input CNF. -/
+def checkProofs (cnf : CNF) (proofs : List (Nat × List Nat)) : Bool :=
+  match rebuild (cnf.map dedup) proofs with
+  | some c => checkTrace c cnf.length proofs
+  | none => false
+
 end Holpy.C15
 
 -- ---------------------------------------------------------------- Tseitin encoding
